@@ -86,7 +86,7 @@ package ext
 // wire, so the next request starts at the first byte after the body. Chunked: a chunk-size line is only
 // parsed when no chunk data is pending.
 //@ func bodyStream.skipRest(rs) err
-//@   props C14, C11, C01
+//@   props C14, C11, C01, C02
 //@   nosafety
 //@   replay-import errors
 //@   replay-import github.com/cloudwego/hertz/pkg/common/bytebufferpool
